@@ -64,11 +64,23 @@ PROPS = {
              shards=(8, 16), n=(25, 400),
              trusted=["Keccak-256 (x/crypto, oracle column schemaOf)", "core.IDFromDID / w3c.ParseDID (oracle column subject)", "go-iden3-core Claim (re-modelled in Gsp.Claim, compared slot by slot)",
                       "document -> root: the credential is merklized by the harness directly (json-gold + merklizer, see C01-C03)"]),
+    "C17": P("cases = complete enumeration of the assignments of the four slots to {unassigned, 5 field paths incl. a nested one} (6^4 - 1 = 1295 attributes; quick tier: every third, thorough: all), parts in random order, "
+             "plus malformed attributes (wrong prefix, 5 parts, a=b=c, unknown slot key, missing '=', empty value, duplicate key, unknown field); for every attribute a credential of that type is built for real and "
+             "every pool field, an unknown field, the empty field and a dotted non-field are looked up by type name and by type IRI; the facade with all 8 subsets of stub components; every case non-trivial; "
+             "distinct = distinct (attribute, field) pairs",
+             shards=(8, 16), n=(1, 1),
+             trusted=["json-gold context parsing (ld.Context term definitions) locates the serialization attribute; the harness feeds the attribute string itself to the model"]),
 }
 
 NOT_APPLICABLE = {}
 
 MANIFEST_TEXT = {
+    "C17": dict(
+        text="Lean theorems (Gsp.Props.C17 over Gsp.Claim's ParseSerializationAttr / GetFieldSlotIndex / parseSlots models): a reported index is one of 2,3,6,7 and claim building puts exactly that field's value "
+             "encoding in that raw slot (slot_agree); for attributes assigning distinct fields to distinct slots the index is reported iff the field is designated there (slot_agree_iff); malformed attributes fail both operations, "
+             "fields not named, the empty field name and types without attribute are errors (malformed_both_error, unnamed_field_error, empty_field_error, no_attribute_error, parseSer_prefix); facade delegation and "
+             "missing-component errors. Tie: real GetFieldSlotIndex vs the model for every (attribute, field) of the enumeration, and the direct predicate 'index i <=> raw slot i of the really built claim holds the field's encoding'.",
+        note="Defect D12 (empty field name matched an unassigned slot) found here and fixed in /repo (c27936c). Known finding F3: a field assigned to two slots is reported at the first only."),
     "C05": dict(
         text="Lean theorems (Gsp.Props.C05 over Gsp.Claim, a byte-faithful model of go-iden3-core's claim setters and of ToCoreClaim): whenever toCoreClaim succeeds the claim equals the closed form the statement describes "
              "(toCoreClaim_spec: schema hash of the resolved type; nonce, version, updatable as given; expiration flag iff present with Unix seconds mod 2^64; identifier in the requested/default position iff the subject has an id; "
